@@ -14,6 +14,7 @@ import time as _time
 import numpy as _np
 
 from . import ops
+from . import core
 from .core import cur, SNum, Unsupported
 
 
@@ -99,7 +100,17 @@ math_shim = Shim(math, sin=ops.ssin, cos=ops.scos, exp=ops.sexp, sqrt=ops.ssqrt,
 
 
 # ---- numpy ---------------------------------------------------------------------------
+def _dt(dtype):
+    """`float` / `int` may themselves be shimmed in the calling module (ops.sfloat / ops.sint): numpy must see the types."""
+    if dtype is ops.sfloat:
+        return float
+    if dtype is ops.sint:
+        return int
+    return dtype
+
+
 def n_zeros(shape, dtype=None, *a, **k):
+    dtype = _dt(dtype)
     c = cur()
     if c is not None and c.symbolic and dtype is None:
         arr = _np.empty(shape, dtype=object)
@@ -109,6 +120,7 @@ def n_zeros(shape, dtype=None, *a, **k):
 
 
 def n_zeros_like(a, dtype=None, *args, **k):
+    dtype = _dt(dtype)
     if isinstance(a, _np.ndarray) and a.dtype == object and dtype is None:
         arr = _np.empty(a.shape, dtype=object)
         arr.fill(0.0)
@@ -116,7 +128,37 @@ def n_zeros_like(a, dtype=None, *args, **k):
     return _np.zeros_like(a, *(() if dtype is None else (dtype,)), *args, **k)
 
 
-numpy_shim = Shim(_np, zeros=n_zeros, zeros_like=n_zeros_like)
+def _floatish(dtype):
+    return dtype is None or dtype is float or dtype == _np.float64
+
+
+def _has_proxy(a):
+    if isinstance(a, _np.ndarray):
+        return a.dtype == object and any(isinstance(v, (SNum, core.SBool)) for v in a.flat)
+    if isinstance(a, (list, tuple)):
+        return core.any_sym(a)
+    return isinstance(a, SNum)
+
+
+def n_asarray(a, dtype=None, *args, **k):
+    """np.asarray on data that holds proxies: an object array stands for the float array.  The ALIASING of the real
+    function is kept: an ndarray that already has the requested type is returned itself (a view), a list is copied."""
+    dtype = _dt(dtype)
+    if _floatish(dtype) and _has_proxy(a):
+        if isinstance(a, _np.ndarray):
+            return a
+        return _np.array(a, dtype=object)
+    return _np.asarray(a, *(() if dtype is None else (dtype,)), *args, **k)
+
+
+def n_array(a, dtype=None, *args, **k):
+    dtype = _dt(dtype)
+    if _floatish(dtype) and _has_proxy(a):
+        return n_asarray(list(a), dtype).copy()
+    return _np.array(a, *(() if dtype is None else (dtype,)), *args, **k)
+
+
+numpy_shim = Shim(_np, zeros=n_zeros, zeros_like=n_zeros_like, asarray=n_asarray, array=n_array)
 
 
 # ---- time -----------------------------------------------------------------------------
